@@ -62,3 +62,14 @@ MUTANTS += [
     dict(id="c01-enum-xlate", props=["C01"], file="primitivedata.py", old="        rslt = self._xlate_table.get(rslt, rslt)\n\n        # save the result\n        self.value = rslt", new="        rslt = self._xlate_table.get(rslt & 0xFFFF, rslt)\n\n        # save the result\n        self.value = rslt"),
     dict(id="c01-date-tuple", props=["C01"], file="primitivedata.py", old="        tag.set_app_data(Tag.dateAppTag, bytearray(self.value))", new="        tag.set_app_data(Tag.dateAppTag, bytearray(v & 0x7F if i == 3 else v for i, v in enumerate(self.value)))"),
 ]
+
+MUTANTS += [
+    # ---- C14
+    dict(id="c14-no-heapify", props=["C14"], file="task.py", old="                task.isScheduled = False\n                heapify(self.tasks)\n", new="                task.isScheduled = False\n"),
+    dict(id="c14-no-counter", props=["C14"], file="task.py", old="heappush( self.tasks, (task.taskTime, next(self.counter), task) )", new="heappush( self.tasks, (task.taskTime, -next(self.counter), task) )"),
+    dict(id="c14-when-lt", props=["C14"], file="task.py", old="            if when <= now:\n                # pull it off", new="            if when < now:\n                # pull it off"),
+    dict(id="c14-no-suspend-on-reinstall", props=["C14"], file="task.py", old="        if task.isScheduled:\n            self.suspend_task(task)\n", new=""),
+    dict(id="c14-recurring-on-slot", props=["C14"], file="task.py", old="            now = _task_manager.get_time() + 0.000001\n", new="            now = _task_manager.get_time() - 0.000001\n"),
+    dict(id="c14-early", props=["C14"], file="task.py", old="            if when <= now:\n                # pull it off", new="            if when <= now + 0.25:\n                # pull it off"),
+    dict(id="c14-deferred-reversed", props=["C14"], file="core.py", old="                fnlist = deferredFns\n                deferredFns = []\n\n                # call the functions\n                for fn, args, kwargs in fnlist:\n                    if _debug: run_once", new="                fnlist = deferredFns[::-1]\n                deferredFns = []\n\n                # call the functions\n                for fn, args, kwargs in fnlist:\n                    if _debug: run_once"),
+]
